@@ -9,8 +9,8 @@ package main
 //   status   : {headers:[[key,[val..]]..]}   -> checkGRPCStatus on that header map
 //   grpcweb  : {block}                       -> examineGRPCEndStream, then checkGRPCStatus on its result
 //   own      : {code,msg,details,trailers}   -> grpcWebStatusEndStream of that error, examined as above
-//   cerr     : {json, kind}                  -> examineConnectError          (implementation half only)
-//   cend     : {json, kind}                  -> examineConnectEndStream      (implementation half only)
+//   cerr     : {json, kind}                  -> examineConnectError, the duplicate-preserving parse, the debug oracle
+//   cend     : {json, kind}                  -> examineConnectEndStream, likewise (c13json.go)
 //   serve    : {proto,codec,stream,code,msg,details,headers,trailers} -> the reference server handler
 //              answers such an error in memory; the response goes through examineWireDetails
 //   wire     : {ct,status,trailers,endStream,...} -> examineWireDetails dispatch / HTTP trailers
@@ -59,12 +59,10 @@ func init() {
 		return c13Own(c, gen.Into[c13ErrIn](raw))
 	})
 	gen.RegisterOp("c13", "cerr", func(c *gen.Ctx, raw json.RawMessage) any {
-		in := gen.Into[c13JSONIn](raw)
-		return c13FbOut{Fb: c13Classes(c, rc.VerifC13ExamineConnectError(c13Un(in.JSON)))}
+		return c13ExamineJSON(c, gen.Into[c13JSONIn](raw), false)
 	})
 	gen.RegisterOp("c13", "cend", func(c *gen.Ctx, raw json.RawMessage) any {
-		in := gen.Into[c13JSONIn](raw)
-		return c13FbOut{Fb: c13Classes(c, rc.VerifC13ExamineConnectEndStream(c13Un(in.JSON)))}
+		return c13ExamineJSON(c, gen.Into[c13JSONIn](raw), true)
 	})
 	gen.RegisterOp("c13", "serve", func(c *gen.Ctx, raw json.RawMessage) any {
 		return c13Serve(c, gen.Into[c13ServeIn](raw))
@@ -112,15 +110,15 @@ var c13Rules = []c13Rule{
 	c13R(`^trailers include 'grpc-status-details-bin' value with zero/okay 'grpc-status' and non-empty details$`, "st:details-with-ok"),
 	c13R(`^trailers include 'grpc-status-details-bin' value that disagrees with 'grpc-message' value: ".*" != ".*"$`, "st:details-msg"),
 	// Connect error JSON
-	c13R(`^connect error JSON: value for key "code" is a \S+ instead of a string$`, "ce:code-type"),
+	c13R(`^connect error JSON: value for key "code" is a [^"]+ instead of a string$`, "ce:code-type"),
 	c13R(`^connect error JSON: value for key "code" is not a recognized error code name: ".*"$`, "ce:code-unknown"),
-	c13R(`^connect error JSON: value for key "message" is a \S+ instead of a string$`, "ce:message-type"),
-	c13R(`^connect error JSON: value for key "details" is a \S+ instead of a slice$`, "ce:details-type"),
+	c13R(`^connect error JSON: value for key "message" is a [^"]+ instead of a string$`, "ce:message-type"),
+	c13R(`^connect error JSON: value for key "details" is a [^"]+ instead of a slice$`, "ce:details-type"),
 	c13R(`^connect error JSON: invalid key ".*"$`, "ce:invalid-key"),
 	c13R(`^connect error JSON: missing required key "code"$`, "ce:missing-code"),
-	c13R(`^connect error JSON: details\[\d+\]: value for key "type" is a \S+ instead of a string$`, "cd:type-type"),
+	c13R(`^connect error JSON: details\[\d+\]: value for key "type" is a [^"]+ instead of a string$`, "cd:type-type"),
 	c13R(`^connect error JSON: details\[\d+\]: value for key "type", ".*", is not a valid type name$`, "cd:type-invalid"),
-	c13R(`^connect error JSON: details\[\d+\]: value for key "value" is a \S+ instead of a string$`, "cd:value-type"),
+	c13R(`^connect error JSON: details\[\d+\]: value for key "value" is a [^"]+ instead of a string$`, "cd:value-type"),
 	c13R(`^connect error JSON: details\[\d+\]: value for key "value", ".*", is not valid unpadded base64-encoding: .*$`, "cd:value-base64"),
 	c13R(`^connect error JSON: details\[\d+\]: invalid key ".*"$`, "cd:invalid-key"),
 	c13R(`^connect error JSON: details\[\d+\]: missing required key "type"$`, "cd:missing-type"),
@@ -131,24 +129,41 @@ var c13Rules = []c13Rule{
 	c13R(`^connect error JSON: details\[\d+\]: debug data indicates type ".*" but should indicate type ".*"$`, "cd:debug-type"),
 	c13R(`^connect error JSON: details\[\d+\]: debug data does not match value: .*$`, "cd:debug-mismatch"),
 	// Connect end-stream JSON
-	c13R(`^connect end stream JSON: value for key "error" is a \S+ instead of a map/object$`, "cs:error-type"),
-	c13R(`^connect end stream JSON: value for key "metadata" is a \S+ instead of a map/object$`, "cs:metadata-type"),
+	c13R(`^connect end stream JSON: value for key "error" is a [^"]+ instead of a map/object$`, "cs:error-type"),
+	c13R(`^connect end stream JSON: value for key "metadata" is a [^"]+ instead of a map/object$`, "cs:metadata-type"),
 	c13R(`^connect end stream JSON: metadata\[".*"\]: entry key is not a valid HTTP field name$`, "cs:meta-name"),
-	c13R(`^connect end stream JSON: metadata\[".*"\]: value is a \S+ instead of an array of strings$`, "cs:meta-array"),
-	c13R(`^connect end stream JSON: metadata\[".*"\]: value #\d+ is a \S+ instead of a string$`, "cs:meta-value-type"),
+	c13R(`^connect end stream JSON: metadata\[".*"\]: value is a [^"]+ instead of an array of strings$`, "cs:meta-array"),
+	c13R(`^connect end stream JSON: metadata\[".*"\]: value #\d+ is a [^"]+ instead of a string$`, "cs:meta-value-type"),
 	c13R(`^connect end stream JSON: metadata\[".*"\]: value #\d+ is not a valid HTTP field value: ".*"$`, "cs:meta-value"),
 	c13R(`^connect end stream JSON: invalid key ".*"$`, "cs:invalid-key"),
 	// generic JSON layer (examineJSON)
-	c13R(`^connect (error|end stream) JSON(: details\[\d+\])?: (\S+: )?contains duplicate key ".*"$`, "json:duplicate-key"),
+	c13R(`^connect (error|end stream) JSON(: details\[\d+\])?: (.*: )?contains duplicate key ".*"$`, "json:duplicate-key"),
 	c13R(`^connect (error|end stream) JSON(: details\[\d+\])?: expecting an object but got <nil>$`, "json:null"),
+	c13R(`^connect (error|end stream) JSON(: details\[\d+\])?: json: cannot unmarshal .*$`, "json:type"),
 	c13R(`^connect (error|end stream) JSON(: details\[\d+\])?: .*$`, "json:syntax"),
 	// wire dispatch
 	c13R(`^response included \d+ HTTP trailers but should not have any$`, "wire:http-trailers"),
 	c13R(`^unable to examine wire details: .*$`, "wire:unavailable"),
 }
 
-func c13Class(msg string) string {
+// c13ConnectRules: the rules for the messages of the Connect JSON examiners (they all start
+// with "connect "), so that those messages are not tried against the other fifty expressions.
+var c13ConnectRules = func() []c13Rule {
+	var out []c13Rule
 	for _, r := range c13Rules {
+		if strings.HasPrefix(r.re.String(), "(?s)^connect ") {
+			out = append(out, r)
+		}
+	}
+	return out
+}()
+
+func c13Class(msg string) string {
+	rules := c13Rules
+	if strings.HasPrefix(msg, "connect ") {
+		rules = c13ConnectRules
+	}
+	for _, r := range rules {
 		if r.re.MatchString(msg) {
 			return r.cls
 		}
@@ -371,7 +386,7 @@ func c13Own(c *gen.Ctx, in c13ErrIn) c13OwnOut {
 	return out
 }
 
-// ---------------------------------------------------------------- JSON examiners (implementation half)
+// ---------------------------------------------------------------- JSON examiners (see c13json.go)
 
 type c13JSONIn struct {
 	JSON string `json:"json"` // hex
